@@ -132,6 +132,25 @@ def _expr(rso, b, row, style):
     return e
 
 
+def _piecewise(rso, b, convex, gs, hkind, form):
+    """max(gs) (convex) or min(gs) written as a piecewise function; with an offset h the SAME function is written as
+    maxof(g - h, ..) + h,  h + maxof(g - h, ..),  maxof(g + h, ..) - h  or  h - minof(h - g, ..)."""
+    F, G = (rso.maxof, rso.minof) if convex else (rso.minof, rso.maxof)
+    if not hkind:
+        return F(*gs)
+    h = {'const': 1.25, 'x': 0.5 * b.x[0] + 0.25, 'z': 0.5 * b.z[0] - 0.25}[hkind]
+    b.ops += 2 * len(gs) + 1
+    if form == 'add':
+        return F(*[g - h for g in gs]) + h
+    if form == 'radd':
+        return h + F(*[g - h for g in gs])
+    if form == 'sub':
+        return F(*[g + h for g in gs]) - h
+    if form == 'rsub':
+        return h - G(*[h - g for g in gs])
+    raise ValueError(form)
+
+
 def build(rsome, spec):
     """Build the ro model described by spec on the real rsome; returns a Built handle."""
     from rsome import ro
@@ -191,7 +210,10 @@ def build(rsome, spec):
         if len(pcs) == 1:
             e = pcs[0]
         else:
-            e = rso.maxof(*pcs) if o['kind'] in ('min', 'minmax') else rso.minof(*pcs)
+            hk = (spec.get('pwoff') or [None, None])[0]
+            if hk == 'z' and o['kind'] in ('min', 'max'):
+                hk = 'x'        # no uncertainty set on a deterministic objective
+            e = _piecewise(rso, b, o['kind'] in ('min', 'minmax'), pcs, hk, (spec.get('pwoff') or [None, None])[1])
         if o['kind'] in ('min', 'max'):
             getattr(m, o['kind'])(e)
         else:
@@ -246,7 +268,9 @@ def build(rsome, spec):
                 rows_iter += grp
                 continue
             gs = [_expr(rso, b, r, r.get('style', 'A')) for r in grp]
-            con = (rso.maxof(*gs) <= 0) if sense == '<=' else (rso.minof(*gs) >= 0)
+            hk, form = spec.get('pwoff') or [None, None]
+            pwf = _piecewise(rso, b, sense == '<=', gs, hk, form)
+            con = (pwf <= 0) if sense == '<=' else (pwf >= 0)
             if name is not None:
                 cs = get_set(name)
                 con = con.forall(cs) if attach == 'list' else con.forall(*cs)
